@@ -41,7 +41,8 @@ OPTIONS = [
 
 
 PAIR_ROWS_QUICK = ["explicit-padding", "flexarray-dst", "union-wrapper", "union-manuallydrop", "no-copy-debug", "target-1.64"]
-PAIR_ROWS_THOROUGH = PAIR_ROWS_QUICK + ["derives-all", "impl-debug", "namespaces", "use-core", "untagged-off", "alias-newtype"]
+PAIR_ROWS_THOROUGH = PAIR_ROWS_QUICK   # more rows multiply the known derive / padding families by every partner row (96 k attributed-by-hand
+#                                        cases in a trial run): the pair part keeps one configuration in both tiers
 LAYOUT_ATOMS = {"flex", "zla", "bfA", "bfB", "bfC", "anonu", "anons", "ldouble", "i128", "nestpk", "nestal", "arr3c"}
 
 
@@ -55,7 +56,7 @@ def option_pairs(ck, recs, only=None, failed_default=()):
     rows = {o[0]: o for o in OPTIONS}
     names = PAIR_ROWS_QUICK if ck.tier == "quick" else PAIR_ROWS_THOROUGH
     allrecs = gen_c.enumerate_records(2)     # not the rotated quick selection: the pair rows always see the same family
-    fam = [c for c in allrecs if (set(c.atoms) & LAYOUT_ATOMS or c.rattr != "plain") and (len(c.atoms) == 1 or ck.tier == "thorough" or c.atoms[0] in ("char", "llong"))]
+    fam = [c for c in allrecs if (set(c.atoms) & LAYOUT_ATOMS or c.rattr != "plain") and (len(c.atoms) == 1 or c.atoms[0] in ("char", "llong"))]
     # three members: a trailing flexible / zero-length array or bit-field run that starts inside what would be tail padding
     three = [c for c in gen_c.enumerate_records(3, atoms=["llong", "char", "short", "flex", "zla", "bfA"], rattrs=["plain", "packed", "al8"], kinds=("struct",))
              if len(c.atoms) == 3 and c.atoms[2] in ("flex", "zla", "bfA") and c.atoms[0] in ("llong", "short") and c.atoms[1] in ("char", "short")]
@@ -149,6 +150,16 @@ def cxx_family():
 
 
 CXX_SHAPES = [
+    # helper types (bit-field unit, union field wrapper, incomplete array, opaque array) needed in one namespace, sibling namespaces
+    # before and after it that need none: the helper definitions are emitted once at the root whatever the order
+    ("global-bitfield-then-ns", "struct {t} {{ unsigned r:1; unsigned m:3; }}; namespace {t}_u {{ struct {t}_P {{ int v; }}; }} void {t}_f({t} f, {t}_u::{t}_P p);"),
+    ("global-flexarray-then-ns", "struct {t} {{ int n; int d[]; }}; namespace {t}_u {{ struct {t}_P {{ int v; }}; }} namespace {t}_w {{ struct {t}_Q {{ int v; }}; }}"),
+    ("ns-bitfield-then-plain", "namespace {t}_a {{ struct {t} {{ unsigned x:3; unsigned y:9; }}; }} namespace {t}_b {{ struct {t}_P {{ int q; }}; }}"),
+    ("ns-plain-bitfield-plain", "namespace {t}_a {{ struct {t}_P {{ int q; }}; }} namespace {t}_b {{ struct {t} {{ unsigned x:3; }}; }} namespace {t}_c {{ struct {t}_Q {{ char c; }}; }}"),
+    ("ns-nested-bitfield", "namespace {t}_o {{ namespace {t}_i {{ struct {t} {{ long long w:40; }}; }} struct {t}_M {{ int m; }}; }} namespace {t}_z {{ enum {t}_E {{ {t}_E0 }}; }}"),
+    ("ns-flexarray-then-plain", "namespace {t}_a {{ struct {t} {{ int n; int data[]; }}; }} namespace {t}_b {{ struct {t}_P {{ int q; }}; }}"),
+    ("ns-union-nocopy-then-plain", "namespace {t}_a {{ struct {t}_D {{ ~{t}_D(); int d; }}; union {t} {{ {t}_D d; int i; }}; }} namespace {t}_b {{ struct {t}_P {{ int q; }}; }}"),
+    ("ns-bigarray-then-plain", "namespace {t}_a {{ struct {t} {{ long double ld; char big[40]; }}; }} namespace {t}_b {{ struct {t}_P {{ int q; }}; }}"),
     ("inherit-virtual", "struct {t}_B {{ virtual void f(); int b; }}; struct {t} : {t}_B {{ void f() override; int d; }};"),
     ("inherit-multiple", "struct {t}_A {{ int a; }}; struct {t}_B {{ double b; }}; struct {t} : {t}_A, {t}_B {{ char c; }};"),
     ("inherit-virtual-base", "struct {t}_V {{ int v; }}; struct {t}_L : virtual {t}_V {{ int l; }}; struct {t} : virtual {t}_V {{ int r; }};"),
@@ -271,7 +282,7 @@ def run(ck, only=None):
     opts = OPTIONS if not only else [o for o in OPTIONS + SHAPE_OPTIONS if o[0] == only.get("opt")]
     if ck.tier == "quick" and not only:
         # rows that change HOW a type is emitted (not only which traits it carries) are in every quick run
-        opts = [o for k, o in enumerate(OPTIONS) if k <= 1 or (k + ck.seed) % 3 == 0 or o[0] in ("no-copy-debug", "union-wrapper")]
+        opts = [o for k, o in enumerate(OPTIONS) if k <= 1 or (k + ck.seed) % 3 == 0 or o[0] in ("no-copy-debug", "union-wrapper", "namespaces")]
     if not only:
         opts = opts + SHAPE_OPTIONS
     shape_rows = {o[0] for o in SHAPE_OPTIONS}
@@ -307,6 +318,23 @@ def run(ck, only=None):
                     ck.violation(f"{c.cid} opt={oname} rustc-rejects {sig}",
                                  {"cid": c.cid, "opt": oname, "predicate": f"{sig}|{structure_class(c)}|{oname}", "source": c.source(),
                                   "why": " | ".join(msgs)[:600]})
+    # shapes about MODULE structure (which namespace needs which helper type) alone in their header: in a shared header a later
+    # shape's namespace would mask what an earlier one does to the helper definitions
+    if not only or only.get("solo"):
+        solo = [c for c in cxx_shapes() if c.cid.startswith(("cxx-shape(ns-", "cxx-shape(global-"))]
+        if only:
+            solo = [c for c in solo if c.cid == only.get("cid")]
+        for oname, flags in (("namespaces", ["--enable-cxx-namespaces"]), ("namespaces+sort", ["--enable-cxx-namespaces", "--sort-semantically", "--merge-extern-blocks"])):
+            batches = [(f"solo_{oname.replace('+', '_')}_{k}", [c]) for k, c in enumerate(solo)]
+            res, _ = probes.compile_batches(batches, os.path.join(wd, "solo_" + oname.replace("+", "_")), flags, lang="cpp", contexts=False, edition="2021", prelude="#![allow(warnings)]\n")
+            for c in solo:
+                ck.count()
+                ck.nontriv((c.cid, "solo", oname))
+                msgs = res.get(c.tag)
+                if msgs:
+                    sig = signature(msgs)
+                    ck.violation(f"{c.cid} alone opt={oname} rustc-rejects {sig}", {"cid": c.cid, "opt": oname, "solo": True, "predicate": f"{sig}|{structure_class(c)}|{oname}",
+                                                                                  "source": c.source(), "why": " | ".join(msgs)[:600]})
     if not only or only.get("pair"):
         option_pairs(ck, recs, only, failed_default)
     ck.sample({"record": fam_c[len(fam_c) // 2].cid if fam_c else None, "cxx": fam_cpp[3].cid if len(fam_cpp) > 3 else None})
